@@ -145,7 +145,7 @@ def page_letter(k: int) -> str:
 RECT_SIZE = (16, 4)  # filled rectangle drawn with its lower-left corner at the page's glyph point (rect=True)
 
 
-def build(nodes, attrs, spell=lambda i, k: 0, contents: bool = True, rect: bool = False) -> bytes:
+def build(nodes, attrs, spell=lambda i, k: 0, contents: bool = True, rect: bool = False, extra=None) -> bytes:
     """Serialise.  spell(i, key) -> 0 direct value, 1 the value is an indirect object, 2 the parts of the value are
     indirect objects (array elements / the /Font sub-dictionary; Rotate: indirect)."""
     d = Doc()
@@ -201,6 +201,9 @@ def build(nodes, attrs, spell=lambda i, k: 0, contents: bool = True, rect: bool 
                 body = b"BT /F1 8 Tf 1 0 0 1 %d %d Tm (%s) Tj ET" % (X, Y, page_letter(k).encode())
                 if rect:
                     body += b" %d %d %d %d re f" % (X, Y, RECT_SIZE[0], RECT_SIZE[1])
+                if extra and i in extra:
+                    # operators before / after the page's own glyph (extra[node] = (prefix, suffix))
+                    body = extra[i][0] + b" " + body + b" " + extra[i][1]
                 d.add(Stream({}, body), num=CONTENT_BASE + i)
                 obj["Contents"] = Ref(CONTENT_BASE + i)
         for k2 in INHERITABLE:
